@@ -132,14 +132,24 @@ def _one_update_per_visit(v0, v1, o0, o1, o2, password):
 
 
 # ---------------------------------------------------------------- closed retry loop
-def _retry_loop(tries, k0, k1, k2, k3, k4):
+def _retry_loop(tries, k0, k1, k2, k3, k4, robots=False):
     kinds = [k0, k1, k2, k3, k4]
 
     def answer(k, request):
         return pick(['neterr', (500, None), 'proto', (503, None)], kinds[k] if k < 5 else 0)
     with nosym():
         client = stubs.StubHTTPClient(answer=answer)
-        env = stubs.build_web(client, filters=[F.SchemeFilter(), F.TriesFilter(tries)])
+        checker = None
+        if robots:
+            # robots.txt checking on: the failing answers hit the robots.txt fetch first
+            import harness.c20 as c20
+            from wpull.protocol.http.robots import RobotsTxtChecker
+            from wpull.protocol.http.web import WebClient
+            c20._install_tempfiles()
+            checker = RobotsTxtChecker(web_client=WebClient(http_client=client))
+        env = stubs.build_web(client, filters=[F.SchemeFilter(), F.TriesFilter(tries)], robots_checker=checker)
+        if robots:
+            c20._install_tempfiles()
         env.table.add('http://a.example/')
         src = URLItemSource(env.app)
     visits = 0
@@ -154,6 +164,9 @@ def _retry_loop(tries, k0, k1, k2, k3, k4):
         return False                        # still being offered after tries+3 rounds
     row = env.table.rows['http://a.example/']
     hit('left-alone')
+    if robots:
+        # every visit makes at most one robots.txt fetch and one page fetch; the URL is given up after `tries` failed visits
+        return len(client.sent) <= 2 * tries and row.status == Status.skipped and row.try_count == tries + 1
     return len(client.sent) == tries and row.status == Status.skipped and row.try_count == tries + 1
 
 
@@ -208,14 +221,15 @@ HARNESSES = [
              'wpull/processor/rule.py:ResultRule.handle_document_error'],
       doc='every visit (any of 12 outcomes per hop, <=3 hops, scope verdicts symbolic) ends with exactly one status update that counts '
           'one try and leaves the URL in a final or error state'),
-    H('retry_loop', '_retry_loop', 'tries: int, k0: int, k1: int, k2: int, k3: int, k4: int',
+    H('retry_loop', '_retry_loop', 'tries: int, k0: int, k1: int, k2: int, k3: int, k4: int, robots: bool',
       pre={'quick': ['1 <= tries <= 3', ' and '.join('0 <= k%d <= 3' % i for i in range(5))],
            'thorough': ['1 <= tries <= 5', ' and '.join('0 <= k%d <= 3' % i for i in range(5))]},
-      parts={'quick': [{'tag': 't%d' % t, 'fix': {'tries': str(t)}} for t in (1, 2, 3)],
-             'thorough': [{'tag': 't%d' % t, 'fix': {'tries': str(t)}} for t in (1, 2, 3, 4, 5)]},
-      timeout={'quick': 250, 'thorough': 1500}, samples=[(3, 0, 1, 2, 0, 0), (1, 1, 0, 0, 0, 0)], need=['left-alone'],
+      parts={'quick': [{'tag': 't%d' % t, 'fix': {'tries': str(t), 'robots': 'False'}} for t in (1, 2, 3)]
+             + [{'tag': 'robots_t%d' % t, 'fix': {'tries': str(t), 'robots': 'True', 'k3': '0', 'k4': '0'}} for t in (1, 2)],
+             'thorough': [{'tag': 't%d%s' % (t, '_robots' if r else ''), 'fix': {'tries': str(t), 'robots': str(r)}} for t in (1, 2, 3, 4, 5) for r in (False, True)]},
+      timeout={'quick': 250, 'thorough': 1500}, samples=[(3, 0, 1, 2, 0, 0, False), (1, 1, 0, 0, 0, 0, False), (2, 1, 1, 1, 0, 0, True)], need=['left-alone'],
       funcs=['wpull/pipeline/session.py:URLItemSource.get_item', 'wpull/urlfilter.py:TriesFilter.test',
              'wpull/processor/web.py:WebProcessorSession._process_robots', 'wpull/processor/rule.py:FetchRule.check_initial_web_request'],
       doc='closed loop item source -> processor -> table: a URL that always fails (4 failure kinds per attempt) is requested exactly '
-          '`tries` times, then skipped and never offered again'),
+          '`tries` times, then skipped and never offered again - also when robots.txt checking is on and it is the robots.txt fetch that keeps failing'),
 ]
